@@ -14,6 +14,7 @@ THEOREMS = {
     "SpecKitV.Lemmas.Starts": ["nsegRaw_eq", "capK_le", "startsEven_safe", "startsAccum_safe", "overlapMean_eq_closed", "overlapMean_accum_eq_closed"],
     "SpecKitV.Lemmas.SchedNewVec": ["SchedNV.searchLeft_mono", "SchedNV.roundEven_mono", "SchedNV.roundEven_abs_sub_le"],
     "SpecKitV.Props.C04": ["ltfPlan_monotone", "lpsdPlan_monotone", "ltfPlan_K_formula", "lpsdPlan_K_formula", "ltfPlan_logspaced", "plan_even_spread", "plan_overlap_reported", "findJdes_sound", "findJdes_fuel", "findJdes_complete"],
+    "SpecKitV.Props.JdesGen": ["gen_findJdes_eq_model", "gen_findJdes_sound", "gen_findJdes_complete", "gen_findJdes_complete_log"],
     "SpecKitV.Props.C04New": ["newPlan_monotone", "NewMono.newStep_mono", "NewMono.inv_step", "NewMono.newK_anti"],
     "SpecKitV.Props.C04Vec": ["vecGridPoint_mono", "vecGrid_mono", "vecGrid_pos", "vecPlan_monotone"],
     "SpecKitV.Props.SchedGen": ["gen_ltf_round_eq", "gen_ltf_walk_eq_model", "gen_new_walk_eq_model"],
@@ -33,6 +34,30 @@ D10 = {"N": 16861, "fs": 1.0, "olap": 0.9, "bmin": 1.5, "Lmin": 1, "Jdes": 1, "K
 def correspondence(ctx) -> C.Part:
     P = C.Part()
     S.correspondence_plans(ctx, P, ctx.scale(80, 600))
+    # the GENERATED Jdes search (translated from utils.find_Jdes_binary_search each run) driving the generated walks,
+    # against the real search driving the real schedulers (iterative schedulers only: the vectorised one is too slow in the model
+    # at Jdes ~ 5e5, where its lookup grid has 5e6 points)
+    from speckit.utils import find_Jdes_binary_search
+    from speckit import schedulers as SK
+    for i in range(ctx.scale(6, 40)):
+        if ctx.time_left() < 60:
+            break
+        cfg = {"N": int(ctx.rng.integers(300, 4000)), "fs": float(ctx.rng.choice([1.0, 2.0, 100.0])), "olap": float(ctx.rng.choice([0.0, 0.5, 0.75])),
+               "bmin": float(ctx.rng.choice([1.0, 2.0])), "Lmin": int(ctx.rng.choice([1, 8])), "Kdes": int(ctx.rng.choice([2, 10, 50]))}
+        target = int(ctx.rng.integers(20, 600))
+        which, fn = (("ltf", SK.ltf_plan), ("new", SK.new_ltf_plan))[i % 2]
+        try:
+            real = find_Jdes_binary_search(fn, target, **cfg)
+        except Exception as ex:
+            P.disagreements.append({"op": "genjdes", "sched": which, "cfg": cfg, "target": target, "impl_raised": repr(ex)})
+            continue
+        g = ctx.driver.ask(f"genjdes {which} {cfg['N']} {C.f2h(cfg['fs'])} {C.f2h(cfg['olap'])} {C.f2h(cfg['bmin'])} {cfg['Lmin']} 100 {cfg['Kdes']} {target}")
+        P.cases += 1
+        P.hit("genjdes-" + which + ("-found" if real is not None else "-none"))
+        P.nontrivial.add(("genjdes", which, cfg["N"], target))
+        want = "none" if real is None else f"some {int(real)}"
+        if g != want:
+            P.disagreements.append({"op": "genjdes", "sched": which, "cfg": cfg, "target": target, "generated": g, "impl": want})
     return P
 
 
